@@ -17,13 +17,15 @@ text = f"""### 10.6 Seeded changes and the checks that catch them
 
 Fresh sub-agents, each given only the text of one property and a scratch worktree of /repo, produced source changes that break
 that property while the code still compiles and the pinned suite still passes (confirmed for every kept change with
-`tools/baseline_off.py`: 59/59). Five rounds: round 1 (`Cxx-n`) asked for realistic slips in the anchored code; round 2
+`tools/baseline_off.py`: 59/59). Seven rounds: round 1 (`Cxx-n`) asked for realistic slips in the anchored code; round 2
 (`Cxxr2-n`) for subtler ones in helpers, error paths, caches, concurrency, each needing a specific input or schedule; round 3
 (`Cxxr3-n`) for changes OUTSIDE the functions the property anchors in (actors, shared crate, type definitions, start-up wiring);
 round 4 (`Cxxr4-n`) for faults that depend on HISTORY or ENVIRONMENT (an earlier request on the same connection, an earlier
 failure or retry, a restart, a file left by an earlier run, a configuration other than the default, a sentinel value);
-round 5 (`Cxxr5-n`, eight properties) for RARELY EXECUTED PATHS and quantities (I/O and channel failures, shutdown with work in
-flight, clocks, descriptor exhaustion, buffer capacities, Linux socket and file behaviour).
+rounds 5 and 6 (`Cxxr5-n` for eight properties, `Cxxr6-n` for the other twelve) for RARELY EXECUTED PATHS and quantities (I/O and
+channel failures, shutdown with work in flight, clocks, descriptor exhaustion, buffer capacities, Linux socket and file behaviour);
+round 7 (`Cxxr7-n`, ten properties) for faults of ORDERING AND CONCURRENCY: a lock, an await point, a task or a message whose
+position makes the behaviour depend on the schedule.
 A last group (`harmless-Hn-m`) are behaviour-preserving refactorings on which every check has to stay quiet. Every change is kept
 under `seeded/<name>/` (`patch.diff`, the agent's `demo.md`, `meta.json`, and `result.json` written by `tools/seed_eval.py`, which
 applies the patch to /repo, runs the named checks and undoes it).
@@ -99,6 +101,47 @@ Changes a check missed when it was first run against them, and what was added so
   C18r5-1 (extra upload round at shutdown): the shutdown signal while the second batch of a file waits for its answer; C18r5-2
   (byte slice of the dropped event's JSON): oversize events that are multi-byte throughout; C19r5-1 (archiving made best effort):
   an append-only live log file (`chattr +a`).
+* Round 6 — the checks were extended from the descriptions of the first eight changes before the rest arrived, so 20 of 24 were
+  reported at once; added: C01r6-1 / C02r6-1 / C03r6-1 / C11r6-2 (a failed rules lookup treated as "no rules"): the actor holding the
+  rules is ended through H3 — once exactly while it handles a request's lookup, then for good — with deny-everything rules in force
+  (`pipe.rules_lookup_fails`); C02r6-2 (process name taken from the 15-byte task name): programs with names longer than 15 bytes that
+  agree in the first 15; C03r6-2 (port for the authorizer taken from an absolute-form target): absolute-form request targets naming
+  other ports and hosts; C05r6-1 (date computed from one wall-clock reading plus monotonic time): the agent's wall clock is stepped
+  while it runs (an `LD_PRELOAD` shim, `tools/native/clockshim.c`); C05r6-2 (chunked trailers merged into the headers): proxy-owned
+  names in the trailer section; C06r6-1 (`BPF_NOEXIST` on audit writes): map update flags in the simulator and source ports used
+  again within a schedule; C06r6-2 (`BPF_F_NO_COMMON_LRU`): 60 processes on one CPU connecting in the running kernel; C07r6-1 / -2
+  (record not consumed for a connection closed at once / dropped over a connection cap): silent connections and 150 idle ones;
+  C09r6-1 (body reading stops at Content-Length): host documents sent chunked; C09r6-2 (`try_send` for the key update): 400 reader
+  messages queued at the state actor when the poll records "disabled"; C10r6-1 / -2 (clear keeps the id; retry after a signing error
+  re-reads only the secret): a latched key with a non-hex secret replaced mid-request; C15r6-1 / -2 (pre-sized collect; a ten-second
+  budget on the upload): chunk sizes dividing the limit, a client sending 1 KiB per second; C17r6-1 (copy without truncation):
+  stand-in files of clearly different lengths compared byte for byte; C20r6-1 / -2 (verdict overridden on a spawn error; successes
+  not counted for empty summaries): the monitor loop's own private functions (`extension_substatus`,
+  `report_proxy_agent_service_status`) driven through a child module of `service_main` and compared with the automaton.
+* Round 7 — a few were reported by the checks as they stood; most needed a schedule nobody had forced yet. Added:
+  C01r7-1 (rules dropped between `SetRuleId` and `SetRules`): a request sent on an already open connection while the state actor is
+  held, through H3, exactly between the two messages of a rule change (`c09.request_during_rule_change`, also run by C01);
+  C01r7-2 / C07r7-1 / C11r7-1 (audit record removed only after later awaits): a host that accepts slowly
+  (`e2e.SlowAcceptHost`) while the same source port is used again by a direct connection (`c07.slow_host_then_port_reuse`, run by
+  C01 and C07); C04r7-1 / C09r7-1 / C05r7-1 (key or strip decision taken before the body await): the key latched, replaced and
+  cleared while an upload is held mid-body (`env_after_head` in `pipe.run_case`); C04r7-2 (key published before the attestation
+  answer): a slow attestation with requests signed in the meantime (`c09.keepalive_signing`); C05r7-2 (per-second date cache
+  published stamp first): simultaneous requests after an idle gap (`c05.concurrent_after_idle`); C07r7-2 / C14r7-2 (connection
+  context / host connection built lazily or by an unjoined task): first requests that arrive before the host has accepted
+  (`c14.first_request_before_host_connects`); C09r7-2 (`try_lock` on the loaded object): in the running kernel, 90 policy switches
+  through `update_*_redirect_policy` while three tasks call `redirector::lookup_audit` on the same object, the policy map read
+  back after every switch (kernel engine op `contend`, run by C06 and C09); C11r7-2 (24 h clear fires at once): denials counted
+  before the status task starts (`c11.denials_before_the_status_task`); C12r7-1 (ACL in a detached blocking task): first start with
+  a 0755 key directory and `chown`/`chmod` slowed by 250 ms (`LD_PRELOAD` shim `tools/native/slowacl.c`), the directory polled from
+  the moment a key file exists; C12r7-2 (undelivered reply logged): requests aborted at each phase of the key lookup, targeted by
+  actor message (`pipe.abort_storm`); C13r7-1 (check-then-push on the event queue): writers racing for the last slot
+  (`eventrace`); C13r7-2 (status actor exits on an undeliverable reply): clients hanging up while the reply is on its way, then
+  further requests; C14r7-1 (host connection shared between client connections): several kept-alive clients in lock-step;
+  C16r7-1 (temp file opened before the awaited collection): the deadline handler held at its last status read while the remaining
+  subsystems report and publish (`prov overlap`), with a reader polling `status.tag` for one inode showing two contents;
+  C16r7-2 (three separate reads of the flags): reported through the correspondence only (`no-failing-input-found`): the message
+  trace of a query differs from the model's single `GetState`. Two changes to hook H3 in /repo came out of this round (a panic in
+  the hook no longer poisons it; the hook closure runs outside its lock so that holding one actor does not hold the others).
 
 {head}""" + "\n".join(breaking) + "\n\nBehaviour-preserving changes:\n\n" + head.replace("caught by", "checks run") + "\n".join(harmless) + "\n"
 p = os.path.join(VERIF, "DESIGN.md")
